@@ -178,6 +178,17 @@ class Interp:
                 if isinstance(st.value, ast.Yield):
                     self.yields.append(self.ev(st.value.value, env) if st.value.value is not None else None)
                     continue
+                if isinstance(st.value, ast.YieldFrom):
+                    src = self.ev(st.value.value, env)
+                    # the delegate may itself be a folded generator that appends to self.yields: collect it apart
+                    saved, self.yields = self.yields, []
+                    try:
+                        items = list(src.__mock_iter__()) if hasattr(src, '__mock_iter__') else list(src)
+                        items = self.yields + items if self.yields and not items else items
+                    finally:
+                        self.yields = saved
+                    self.yields.extend(items)
+                    continue
                 self.ev(st.value, env)
                 continue
             if isinstance(st, (ast.Import, ast.ImportFrom)):
@@ -192,6 +203,14 @@ class Interp:
             if isinstance(st, ast.Raise):
                 if st.exc is None and '__active_exc__' in env:
                     raise env['__active_exc__']
+                if st.exc is not None:
+                    # a real exception object/class supplied by the caller's mocks is raised as such
+                    try:
+                        v = self.ev(st.exc, env)
+                    except (Unsupported, Raised):
+                        v = None
+                    if isinstance(v, BaseException) or (isinstance(v, type) and issubclass(v, BaseException)):
+                        raise v
                 raise Raised(ast.unparse(st)[:100])
             if isinstance(st, ast.If):
                 self.run(st.body if self.truth(self.ev(st.test, env)) else st.orelse, env)
@@ -249,7 +268,7 @@ class Interp:
                 raise _Continue()
             if isinstance(st, ast.For):
                 it = self.ev(st.iter, env)
-                if not isinstance(it, (tuple, list, dict, set, frozenset, str, range, type({}.items()), type({}.keys()), type({}.values()), zip, enumerate, collections.deque)) and not hasattr(it, '__mock_iter__') and not hasattr(it, '__next__'):
+                if not isinstance(it, (tuple, list, dict, set, frozenset, str, range, type({}.items()), type({}.keys()), type({}.values()), zip, enumerate, collections.deque)) and not hasattr(it, '__mock_iter__') and not hasattr(it, '__next__') and not hasattr(it, '__bound_methods__'):
                     raise self.fail(f'loop over non-concrete value {it!r}')
                 if hasattr(it, '__next__'):
                     seq = itertools.islice(it, 0, 201)          # lazily: a `break` must leave the rest unconsumed
@@ -312,7 +331,17 @@ class Interp:
                     parents = {'KeyError': ('LookupError',), 'IndexError': ('LookupError',)}.get(text, ())
                     for h in st.handlers:
                         names = [] if h.type is None else [ast.unparse(x) for x in (h.type.elts if isinstance(h.type, ast.Tuple) else [h.type])]
-                        if h.type is None or any(text.startswith(n) or n in ('Exception', 'BaseException') or n in parents for n in names):
+                        # handler types that the caller's mocks define as real exception classes are matched by isinstance
+                        realmatch = False
+                        if h.type is not None and not isinstance(r, Raised):
+                            for x in (h.type.elts if isinstance(h.type, ast.Tuple) else [h.type]):
+                                try:
+                                    cls_ = self.ev(x, env)
+                                except (Unsupported, Raised):
+                                    continue
+                                if isinstance(cls_, type) and issubclass(cls_, BaseException) and isinstance(r, cls_):
+                                    realmatch = True
+                        if h.type is None or realmatch or any(text.startswith(n) or n in ('Exception', 'BaseException') or n in parents for n in names):
                             if h.name:
                                 env[h.name] = r
                             env['__active_exc__'] = r if isinstance(r, Raised) else Raised(text)
@@ -473,6 +502,18 @@ class Interp:
                     return l & r
                 if isinstance(e.op, ast.RShift):
                     return l >> r
+                if isinstance(e.op, ast.Div):
+                    return l / r
+                if isinstance(e.op, ast.FloorDiv):
+                    return l // r
+                if isinstance(e.op, ast.Mod) and not isinstance(l, str):
+                    return l % r
+                if isinstance(e.op, ast.BitXor):
+                    return l ^ r
+                if isinstance(e.op, ast.Pow):
+                    return l ** r
+            except ZeroDivisionError:
+                raise
             except TypeError as err:
                 raise self.fail(f'`{ast.unparse(e)}`: {err}')
         if isinstance(e, ast.IfExp):
